@@ -122,6 +122,14 @@ def pick_lines(path, wanted):
     return res
 
 
+# Obligations that FieldCodec.tla states from the standard but that C03 does not list among its
+# fields.  vrate_src: DO-260B 2.2.3.2.6.1.10 says source bit 0 = geometric (GNSS), 1 = barometric;
+# the decoder (and the repository's own unit tests, which pin the strings) has them the other
+# way round.  C03 quantifies over "all 2x511 vertical rates", not over the source bit, so the
+# disagreement is reported in the evidence file (coverage.informative) and is not a VIOLATION.
+INFORMATIVE = {"vrate_src"}
+
+
 def report_fails(run, fails, vec_path, trace_path, stats):
     idx = [i for i, _ in fails]
     evs = pick_lines(trace_path, idx)
@@ -130,6 +138,10 @@ def report_fails(run, fails, vec_path, trace_path, stats):
     for i, fields in fails:
         ev = evs[i]
         for f in fields:
+            if f in INFORMATIVE:
+                # outside the property's list of fields: recorded, never a verdict
+                stats.setdefault("informative", Counter())[f] += 1
+                continue
             sig = signature(ev, f)
             stats["rejected_by_field"][f] += 1
             key = (sig["field"], sig["case"])
@@ -249,6 +261,8 @@ def check(run):
         "vectors_per_sweep": dict(stats["vectors_per_sweep"]),
         "obligations_per_sweep": dict(stats["obligations_per_sweep"]),
         "rejected_obligations_by_field": dict(stats["rejected_by_field"]),
+        "informative": {"vrate_src_disagrees_with_DO260B (outside C03's field list, not a verdict)":
+                        dict(stats.get("informative", {})).get("vrate_src", 0)},
         "df20_bds05": {"laid_out_as_bds05_labelled": labelled, "laid_out_as_bds05_not_labelled": unlabelled,
                        "other_df20_payloads": other_df20, "other_df20_payloads_labelled": other_labelled},
         "samples": samples,
@@ -261,7 +275,8 @@ def check(run):
                 "512 QNH, 512 selected headings, all 4096 codes of each BDS 4,0 field, every code of "
                 "each BDS 5,0 / 6,0 field with the cross-checked partner field absent and present, "
                 "walking-bit and seeded addresses through nine formats, DF20 payloads laid out as "
-                "BDS 0,5 with equal / unequal header altitude); the other fields of each frame are "
+                "BDS 0,5 with equal / adjacent / unrelated / Gillham-equal / absent header altitude for each "
+                "of the 13 type codes); the other fields of each frame are "
                 "seeded; thorough adds three more fill variants and the full 2046 x 2046 cross product "
                 "of the velocity axes.  distinct_nontrivial counts distinct generated vectors "
                 "(class + codes); a vector is non-trivial because it is a complete sealed frame "
@@ -272,11 +287,16 @@ def check(run):
         "polar->value scaling in the harness is a fixed multiplication and rounding per observed key",
         "decoded value within half a quantisation step of the nominal value of the code (the encoded "
         "true value lies within half a step of it, the property allows one step in total)",
-        "named deviations carry no obligation: Plausible40/50/60 envelopes, GNSS-baro code 1 (0 ft), "
+        "named deviations carry no obligation: Plausible40/50/60 envelopes, GNSS-baro code 1 (0 ft; the "
+        "property's quantifier counts 2 x 126 differences), BDS 5,0 track angle rate with an all-ones value "
+        "field (the decoder reads it as not available), BDS 6,0 vertical rates with an all-ones value field "
+        "(the decoder reports 0 ft/min: for sign 1 that is one LSB off the nominal -32 ft/min), "
         "altitudes <= 0 ft or > 65535 ft may be reported unavailable (unsigned 16-bit interface, as C13), "
         "TC 20-22 altitude decoded with the barometric coding, embedded spaces of a call sign ignored, "
         "selected altitudes only on the 100-ft grid, characters outside the 6-bit set",
-        "DF20 labelled BDS 0,5 is checked as 'only when' (label => equal altitudes), as the property states",
+        "DF20 labelled BDS 0,5 is checked as 'only when' (label => BDS 0,5 type code, both altitudes available "
+        "and equal, reported altitude = that altitude), on every DF20 vector of every Comm-B class; the type "
+        "code and altitude are read off the assembled MB field by the trace specification",
     ]
 
 
